@@ -317,6 +317,13 @@ pub fn apply_edit(world: &mut World, t: &mut Tape, prof: &Profile) -> Option<Str
             // delete a source nobody declares and nobody truly includes (it may still be in recorded lists)
             let cands: Vec<String> = plain_sources.iter().filter(|s| exists(s) && !declared(world, s) && !world.includes.values().any(|v| v.contains(s))).cloned().collect();
             let s = cands.get(pickn(a, cands.len()))?.clone();
+            let is_link = std::fs::symlink_metadata(&s).map(|m| m.file_type().is_symlink()).unwrap_or(false);
+            if is_link && b >= 1 << 15 {
+                // the link stays, what it points to goes away: for n2 the file is simply missing
+                let target = std::fs::read_link(&s).ok()?;
+                std::fs::remove_file(&target).ok()?;
+                return Some(format!("delete the target of symlinked unreferenced source {}", s));
+            }
             std::fs::remove_file(&s).ok()?;
             Some(format!("delete unreferenced source {}", s))
         }
@@ -349,9 +356,19 @@ pub fn apply_edit(world: &mut World, t: &mut Tape, prof: &Profile) -> Option<Str
             // only the main generator rewrites: they are left alone)
             let cmds: Vec<usize> = cur.steps.iter().filter(|s| !s.phony && !(cur.has_subgen() && s.regen)).map(|s| s.uid).collect();
             let uid = *cmds.get(pickn(a, cmds.len()))?;
+            // (a step that really includes headers cannot stop reporting them without becoming wrong)
+            let has_includes = world.includes.get(&uid).map(|v| !v.is_empty()).unwrap_or(false);
             let p = editable(world);
             let s = p.step_mut(uid)?;
-            let what = if s.rsp.is_some() && b >= 1 << 15 {
+            let what = if c >= 3 << 14 && prof.gen.deps && !s.regen && !(s.deps != 0 && has_includes) {
+                // how dependencies are reported is not part of what makes a step up to date: adding or dropping the
+                // depfile / deps binding must not re-run it, and the next real run reports accordingly
+                s.deps = match s.deps {
+                    0 => 1 + (b % 2) as u8,
+                    _ => 0,
+                };
+                "dependency reporting (depfile/deps binding)"
+            } else if s.rsp.is_some() && b >= 1 << 15 {
                 s.rsp = Some(s.rsp.unwrap() + 1);
                 "rspfile content"
             } else {
@@ -872,6 +889,9 @@ pub fn judge(inv: &mut Inv, prev_clean: Option<&BTreeSet<usize>>, prev_failed: &
                 stats.hazards += 1;
             } else {
                 push(&mut v, "C06", "unexpected-error", format!("unexpected error: {}", e));
+                // no edit of a history is allowed to make n2 give up: e.g. a vanished header must only make a step dirty
+                push(&mut v, "C09", "unexpected-error", format!("unexpected error: {}", e));
+                push(&mut v, "C02", "unexpected-error", format!("unexpected error: {}", e));
             }
         }
     }
